@@ -1395,4 +1395,169 @@ example : flat (hashSemiJoin2 false [col0] [col0] (fun row => sqlGt (row.getD 1 
     [[.i32 1], [.i32 2]] := by decide
 
 
+/-! ## chunk path = row path for COUNT / MIN / MAX -/
+
+theorem cmp_gt_trans {a b c : Val} (h1 : Val.cmp b a = .gt) (h2 : Val.cmp c b = .gt) : Val.cmp c a = .gt := by
+  have s1 : Val.cmp a b = .lt := by have := Val.cmp_swap b a; rw [h1] at this; simpa using this
+  have s2 : Val.cmp b c = .lt := by have := Val.cmp_swap c b; rw [h2] at this; simpa using this
+  have := Val.cmp_trans s1 s2
+  have sw := Val.cmp_swap a c; rw [this] at sw; simpa using sw
+
+theorem cmp_gt_of_gt_of_ge {a b c : Val} (h1 : Val.cmp c a = .gt) (h2 : Val.cmp b a ≠ .gt) : Val.cmp c b = .gt := by
+  -- a < c, b ≤ a  ⇒ b < c
+  have s1 : Val.cmp a c = .lt := by have := Val.cmp_swap c a; rw [h1] at this; simpa using this
+  have := Val.cmp_lawful.lt_of_le_of_lt h2 s1
+  have sw := Val.cmp_swap b c; rw [this] at sw; simpa using sw
+
+theorem cmp_not_gt_trans {a b c : Val} (h1 : Val.cmp b a ≠ .gt) (h2 : Val.cmp c b ≠ .gt) : Val.cmp c a ≠ .gt :=
+  Val.cmp_le_trans h2 h1
+
+theorem maxVal_assoc (a b c : Val) : maxVal a (maxVal b c) = maxVal (maxVal a b) c := by
+  by_cases ha : a.isNull
+  · simp [maxVal, ha]
+  by_cases hb : b.isNull
+  · simp [maxVal, ha, hb]
+  by_cases hc : c.isNull
+  · unfold maxVal; simp only [ha, hb, hc, Bool.false_eq_true, if_false, if_true]
+    split <;> simp [*]
+  unfold maxVal
+  simp only [ha, hb, hc, Bool.false_eq_true, if_false]
+  by_cases h1 : Val.cmp b a = .gt <;> by_cases h2 : Val.cmp c b = .gt
+  · have h3 := cmp_gt_trans h1 h2
+    simp [h1, h2, h3, hb, hc]
+  · simp [h1, h2, hb, hc]
+  · simp [h1, h2, hb, hc, ha]
+  · have h3 : Val.cmp c a ≠ .gt := cmp_not_gt_trans h1 h2
+    simp [h1, h2, h3, hb, ha]
+
+theorem cmp_lt_trans' {a b c : Val} (h1 : Val.cmp b a = .lt) (h2 : Val.cmp c b = .lt) : Val.cmp c a = .lt :=
+  Val.cmp_trans h2 h1
+
+theorem minVal_assoc (a b c : Val) : minVal a (minVal b c) = minVal (minVal a b) c := by
+  by_cases ha : a.isNull
+  · simp [minVal, ha]
+  by_cases hb : b.isNull
+  · simp [minVal, ha, hb]
+  by_cases hc : c.isNull
+  · unfold minVal; simp only [ha, hb, hc, Bool.false_eq_true, if_false, if_true]
+    split <;> simp [*]
+  unfold minVal
+  simp only [ha, hb, hc, Bool.false_eq_true, if_false]
+  by_cases h1 : Val.cmp b a = .lt <;> by_cases h2 : Val.cmp c b = .lt
+  · have h3 := cmp_lt_trans' h1 h2
+    simp [h1, h2, h3, hb, hc]
+  · simp [h1, h2, hb, hc]
+  · simp [h1, h2, hb, hc, ha]
+  · have h3 : Val.cmp c a ≠ .lt := by
+      -- a ≤ b ≤ c
+      intro h
+      have hab : Val.cmp a b ≠ .gt := by
+        intro hh; have := Val.cmp_swap a b; rw [hh] at this; exact h1 (by simpa using this)
+      have hbc : Val.cmp b c ≠ .gt := by
+        intro hh; have := Val.cmp_swap b c; rw [hh] at this; exact h2 (by simpa using this)
+      have hac := Val.cmp_le_trans hab hbc
+      have := Val.cmp_swap c a; rw [h] at this; exact hac (by simpa using this)
+    simp [h1, h2, h3, hb, ha]
+
+theorem maxVal_fold (a b : Val) (xs : List Val) : maxVal a (xs.foldl maxVal b) = xs.foldl maxVal (maxVal a b) := by
+  induction xs generalizing b with
+  | nil => rfl
+  | cons x xs ih => simp only [List.foldl_cons]; rw [ih, maxVal_assoc]
+
+theorem minVal_fold (a b : Val) (xs : List Val) : minVal a (xs.foldl minVal b) = xs.foldl minVal (minVal a b) := by
+  induction xs generalizing b with
+  | nil => rfl
+  | cons x xs ih => simp only [List.foldl_cons]; rw [ih, minVal_assoc]
+
+theorem chunkpath_max_state (ty : Ty) (cols : List (List Val × List Int)) (s : Val) :
+    cols.foldl (fun st c => evalAgg .max ty st c.1 c.2) (.value s) = .value ((cols.flatMap (·.1)).foldl maxVal s) := by
+  induction cols generalizing s with
+  | nil => rfl
+  | cons c cs ih =>
+    simp only [List.foldl_cons, List.flatMap_cons, List.foldl_append]
+    have : evalAgg .max ty (.value s) c.1 c.2 = .value (c.1.foldl maxVal s) := by
+      simp only [evalAgg, arrMax]
+      rw [maxVal_fold, maxVal_null_right, ← foldl_max_nonNull]
+    rw [this, ih]
+
+theorem chunkpath_min_state (ty : Ty) (cols : List (List Val × List Int)) (s : Val) :
+    cols.foldl (fun st c => evalAgg .min ty st c.1 c.2) (.value s) = .value ((cols.flatMap (·.1)).foldl minVal s) := by
+  induction cols generalizing s with
+  | nil => rfl
+  | cons c cs ih =>
+    simp only [List.foldl_cons, List.flatMap_cons, List.foldl_append]
+    have : evalAgg .min ty (.value s) c.1 c.2 = .value (c.1.foldl minVal s) := by
+      simp only [evalAgg, arrMin]
+      rw [minVal_fold, minVal_null_right, ← foldl_min_nonNull]
+    rw [this, ih]
+
+theorem chunkpath_count_state (ty : Ty) (cols : List (List Val × List Int)) (n : Nat) :
+    cols.foldl (fun st c => evalAgg .count ty st c.1 c.2) (.value (.i32 n)) =
+      .value (.i32 ((n + (nonNull (cols.flatMap (·.1))).length : Nat))) := by
+  induction cols generalizing n with
+  | nil => simp [nonNull]
+  | cons c cs ih =>
+    have step : evalAgg .count ty (.value (.i32 n)) c.1 c.2 = .value (.i32 ((n + (nonNull c.1).length : Nat))) := by
+      simp only [evalAgg, addExt, Val.isNull, plusVal, Bool.false_eq_true, if_false, Option.getD_some, arrCount]
+      congr 2
+    rw [List.foldl_cons, step, ih]
+    simp only [List.flatMap_cons, nonNull, List.filter_append, List.length_append]
+    congr 2; omega
+
+/-- CHUNK path = spec for COUNT, COUNT(*), MIN, MAX, for every stream of chunks. -/
+theorem chunkpath_eq_spec (k : AggKind) (hk : k = .count ∨ k = .rowCount ∨ k = .min ∨ k = .max) (ty : Ty)
+    (cols : List (List Val × List Int)) : chunkPathVal k ty cols = aggVal k (cols.flatMap (·.1)) := by
+  rcases hk with h | h | h | h <;> subst h
+  · unfold chunkPathVal initAgg
+    have := chunkpath_count_state ty cols 0
+    simp only [Nat.zero_add] at this
+    have e : (Val.i32 0) = Val.i32 ((0 : Nat) : Int) := rfl
+    rw [e, this]; rfl
+  · have h1 := chunkpath_rowcount cols
+    -- `chunkpath_rowcount` is stated for `.i32`; the type argument is irrelevant for COUNT(*)
+    have : chunkPathVal .rowCount ty cols = chunkPathVal .rowCount .i32 cols := by
+      unfold chunkPathVal; congr 1
+    rw [this, h1]; rfl
+  · unfold chunkPathVal initAgg
+    rw [chunkpath_min_state]
+    show _ = aggMin _
+    unfold aggMin
+    rw [← foldl_min_nonNull]; rfl
+  · unfold chunkPathVal initAgg
+    rw [chunkpath_max_state]
+    show _ = aggMax _
+    unfold aggMax
+    rw [← foldl_max_nonNull]; rfl
+
+/-- `simpleagg_eq_hashagg_nokeys`: on a non-empty input, aggregation without keys by the simple
+executor (chunk path) and by the hash executor (row path) agree — for COUNT, COUNT(*), MIN, MAX
+(SUM, COUNT DISTINCT-free; for SUM / first / last see the `_unsound` witnesses). -/
+theorem simpleagg_eq_hashagg_nokeys (aggs : List XAgg) (Xs : List Chunk) (hne : flat Xs ≠ [])
+    (hk : ∀ a ∈ aggs, a.kind = .count ∨ a.kind = .rowCount ∨ a.kind = .min ∨ a.kind = .max) :
+    flat (simpleAgg aggs Xs) = flat (hashAgg [] aggs Xs) := by
+  rw [simpleagg_is_chunkpath, hashagg_groupwise]
+  have hd : dedup ((flat Xs).map (keyOf [])) = [[]] := by
+    apply dedup_all_eq
+    · intro x hx
+      obtain ⟨y, _, rfl⟩ := List.mem_map.mp hx
+      rfl
+    · intro h; exact hne (List.map_eq_nil_iff.mp h)
+  rw [hd]
+  simp only [List.map_cons, List.map_nil, List.nil_append]
+  congr 1
+  apply List.map_congr_left
+  intro a ha
+  rw [chunkpath_eq_spec a.kind (hk a ha), rowpath_eq_spec a.kind (hk a ha)]
+  congr 1
+  have hg : groupRows [] [] (flat Xs) = flat Xs := by
+    unfold groupRows
+    rw [List.filter_eq_self]
+    intro x _; rfl
+  rw [hg, List.flatMap_map]
+  simp only [Function.comp]
+  unfold flat
+  rw [List.map_flatten]
+  rfl
+
+
 end RlModel
